@@ -10,6 +10,7 @@ import (
 	"encoding/json"
 	"fmt"
 	"os"
+	"strconv"
 	"os/exec"
 	"runtime"
 	"sort"
@@ -292,11 +293,15 @@ func (h *H) ClockSymbolic() {}
 // chooses longer than the (shortened) timeout it configured.
 func (h *H) FireTimer(name string, wait time.Duration) bool {
 	if h.draw(name) != 0 {
-		time.Sleep(wait)
+		time.Sleep(time.Duration(slowFactor()) * wait)
 		return true
 	}
 	return false
 }
+
+// Pause gives real goroutines time to get where the harness expects them
+// (native runs only; under gosx the scheduler decides and Pause is a no-op).
+func (h *H) Pause(d time.Duration) { time.Sleep(time.Duration(slowFactor()) * d) }
 
 // SymbolicLocks makes every Lock/RLock call of the code under test a scheduling
 // point (named lock:<file>:<line>) under SymbolicSched. Natively the replay
@@ -334,9 +339,18 @@ func (h *H) SymbolicSched(preemptions int) {
 		}
 		mu.Unlock()
 		if n > 0 {
-			time.Sleep(300 * time.Millisecond)
+			time.Sleep(time.Duration(slowFactor()) * 300 * time.Millisecond)
 		}
 	})
+}
+
+// slowFactor stretches the fixed pauses of schedule and timer replays
+// (VERIF_SLOW, set by the driver when a replay is repeated on a loaded machine).
+func slowFactor() int {
+	if n, err := strconv.Atoi(os.Getenv("VERIF_SLOW")); err == nil && n > 1 {
+		return n
+	}
+	return 1
 }
 
 func goroutineID() string {
